@@ -86,6 +86,14 @@ BOUNDED = {
               bound='same enumeration as C11; every result is mutated (Add/Remove/RemoveRange) and all pool bitmaps are compared with their snapshots'),
          dict(pkg='roaring64', file='bounded/c17_aggregates64_test.go', run='TestBoundedC07r64', why='roaring64 FastOr/FastAnd/ParOr: ' + WHY_AGG,
               bound='all lists of 0..3 bitmaps from a pool of 7 boundary 64-bit bitmaps x worker counts 0..3; results mutated, pool compared with snapshots')],
+ 'C19': [dict(pkg='roaring64', file='bounded/c19_bsi_test.go', run='TestBoundedC19BSI64', why='64-bit BSI: NewBSIRetainSet/Clone/ParOr/SetMany... use goroutines (sync.WaitGroup, parallel executor) and math/big, outside the subset',
+              bound='all update histories of length <= 2 over the full operation alphabet (5 columns x 10 values incl. negatives, widening, overwrites) and length 3 over a reduced alphabet, auto-sized and fixed-width; GetValue/GetValues/ValueExists/GetCardinality against a map; Clone, NewBSIRetainSet, WriteTo+ReadFrom on every state reachable in <= 2 steps; known open findings F3-F8 excluded from the scope'),
+         dict(pkg='BitSliceIndexing', file='bounded/c19_bsi32_test.go', run='TestBoundedC19BSI32', why='32-bit BSI: goroutine-parallel helpers, outside the subset',
+              bound='same design as the 64-bit stand-in over uint32 columns; known open findings (ParOr F7, UnmarshalBinary F5) excluded')],
+ 'C20': [dict(pkg='roaring64', file='bounded/c20_bsi_test.go', run='TestBoundedC20BSI64', why='64-bit BSI queries run through a goroutine-parallel executor, outside the subset',
+              bound='all 1331 maps from columns {0,5,2^40} to 10 values; CompareValue (5 operators x all constants in range, RANGE pairs) x 4 found-sets, CompareBSI against 6 other indexes, BatchEqual, MinMax, Sum, Transpose/IntersectAndTranspose/TransposeWithCounts, worker counts 0..3; results mutated to check independence'),
+         dict(pkg='BitSliceIndexing', file='bounded/c20_bsi32_test.go', run='TestBoundedC20BSI32', why='32-bit BSI queries run through goroutines, outside the subset',
+              bound='same design over uint32 columns for every worker count 0..3; the known open findings F9 (RANGE with mixed signs), F10 (MinMax), F11 (opposite sign, equal magnitude) are excluded from the scope')],
  'C17': [dict(pkg='roaring64', file='bounded/c17_aggregates64_test.go', run='TestBoundedC17', why='roaring64 ParOr (FastOr/FastAnd for comparison): ' + WHY_AGG,
               bound='all lists of 0..3 bitmaps from a pool of 7 boundary 64-bit bitmaps x worker counts 0..3, compared with the fold of Or/And')],
 }
